@@ -165,7 +165,10 @@ class HTTP(BaseComponent):
                 del self._clients[sock]
             res.done = True
             return
-        if res.stream and res.body:
+        # only an iterator can be streamed piece by piece; a str / bytes / list body is complete
+        # already and is written in one piece, whatever the stream flag says
+        streaming = res.stream and res.body and hasattr(res.body, '__next__')
+        if streaming:
             try:
                 data = next(res.body)
                 while not data:  # an empty first piece must not become the last-chunk
@@ -197,7 +200,7 @@ class HTTP(BaseComponent):
             if res.chunked:
                 self.fire(write(sock, b'0\r\n\r\n'))
 
-            if not res.stream:
+            if not streaming:
                 if res.close:
                     self.fire(close(sock))
                 # Delete the request/response objects if present
